@@ -150,7 +150,7 @@ theorem front_cls_correct_rvm_evex (e : Entry) (ch : List Entry) (hch : ch ∈ r
     obtain ⟨A, hxop, -⟩ := rowAgreeOk_spec _ _ hA
     obtain ⟨p0, p1, p2, hal⟩ := shapeOk3_spec _ _ _ _ _ _ _ hops hS
     rw [hsp] at A
-    obtain ⟨bytes, hb, hf⟩ := vexR_rvm_formOk_evex c ctx e.rule (finalOp e 0x75) reg vvvvv rm k0 k1 k2 f0 f1 f2 hpe hk hm64 hr hv hm hxop hev
+    obtain ⟨bytes, hb, hf⟩ := vexR_rvm_formOk_evex c ctx e.rule (finalOp e 0x75) reg vvvvv rm k0 k1 k2 f0 f1 f2 hpe hk hm64 (by simpa using R.hmodes) hr hv hm hxop hev
       p0 p1 p2 R hsp A r0 r1 r2 (hal _ _ _)
     refine ⟨bytes, k0, k1, k2, hkinds, ?_, hf⟩
     rw [packRegVvvvv_eq reg vvvvv hr hv]
@@ -181,7 +181,7 @@ theorem front_cls_correct_rvm_vex (e : Entry) (ch : List Entry) (hch : ch ∈ rv
     obtain ⟨hll, hmm⟩ := hvx hsp
     obtain ⟨p0, p1, p2, hal⟩ := shapeOk3_spec _ _ _ _ _ _ _ hops hS
     have A' : RowAgree e.rule (finalOp e 0x75) false := by rw [hsp] at A; exact A
-    obtain ⟨bytes, hb, hf⟩ := vexR_rvm_formOk_vex c ctx e.rule (finalOp e 0x75) reg vvvvv rm k0 k1 k2 f0 f1 f2 hpe hk hm64 hr hv hm hxop hll hmm
+    obtain ⟨bytes, hb, hf⟩ := vexR_rvm_formOk_vex c ctx e.rule (finalOp e 0x75) reg vvvvv rm k0 k1 k2 f0 f1 f2 hpe hk hm64 (by simpa using R.hmodes) hr hv hm hxop hll hmm
       p0 p1 p2 R hsp A' r0 r1 r2 (hal _ _ _)
     refine ⟨bytes, k0, k1, k2, hkinds, ?_, hf⟩
     rw [packRegVvvvv_eq reg vvvvv (by bv_decide) (by bv_decide)]
@@ -287,13 +287,13 @@ theorem front_cls_correct_rm (e : Entry) (ch : List Entry) (hch : ch ∈ rmChunk
     have e0 : reg + ((0#32 : BitVec 32) <<< 7) = reg := by bv_decide
     rcases hids with ⟨hsp, hr, hm, hev⟩ | ⟨hsp, hr, hm⟩
     · rw [hsp] at A
-      obtain ⟨bytes, hb, hf⟩ := vexR_rm_formOk_evex c ctx e.rule (finalOp e 0x6B) reg rm k0 k2 f0 f2 hpe hk hm64 hr hm hxop hev p0 p2 R hsp A r0 r2 (hal _ _)
+      obtain ⟨bytes, hb, hf⟩ := vexR_rm_formOk_evex c ctx e.rule (finalOp e 0x6B) reg rm k0 k2 f0 f2 hpe hk hm64 (by simpa using R.hmodes) hr hm hxop hev p0 p2 R hsp A r0 r2 (hal _ _)
       refine ⟨bytes, k0, k2, hkinds, ?_, hf⟩
       rw [e0] at hb
       simpa [r32] using hb
     · obtain ⟨hll, hmm⟩ := hvx hsp
       have A' : RowAgree e.rule (finalOp e 0x6B) false := by rw [hsp] at A; exact A
-      obtain ⟨bytes, hb, hf⟩ := vexR_rm_formOk_vex c ctx e.rule (finalOp e 0x6B) reg rm k0 k2 f0 f2 hpe hk hm64 hr hm hxop hll hmm p0 p2 R hsp A' r0 r2 (hal _ _)
+      obtain ⟨bytes, hb, hf⟩ := vexR_rm_formOk_vex c ctx e.rule (finalOp e 0x6B) reg rm k0 k2 f0 f2 hpe hk hm64 (by simpa using R.hmodes) hr hm hxop hll hmm p0 p2 R hsp A' r0 r2 (hal _ _)
       refine ⟨bytes, k0, k2, hkinds, ?_, hf⟩
       rw [e0] at hb
       simpa [r32] using hb
@@ -324,14 +324,14 @@ theorem front_cls_correct_rvmi (e : Entry) (ch : List Entry) (hch : ch ∈ rvmiC
       intro i0 i1 i2; rw [hops]; exact alignOps4 _ _ _ _ _ _ _ _ _ (m0 i0) (m1 i1) (m2 i2) m3
     rcases hids with ⟨hsp, hr, hv, hm, hev⟩ | ⟨hsp, hr, hv, hm⟩
     · rw [hsp] at A
-      obtain ⟨bytes, hb, hf⟩ := vexR_rvmi_formOk_evex c ctx e.rule (finalOp e 0x7C) reg vvvvv rm k0 k1 k2 f0 f1 f2 hpe hk hm64 hr hv hm hxop hev
+      obtain ⟨bytes, hb, hf⟩ := vexR_rvmi_formOk_evex c ctx e.rule (finalOp e 0x7C) reg vvvvv rm k0 k1 k2 f0 f1 f2 hpe hk hm64 (by simpa using R.hmodes) hr hv hm hxop hev
         p0 p1 p2 R f3 imm r3 hib hsp A r0 r1 r2 (hal _ _ _)
       refine ⟨bytes, k0, k1, k2, hkinds, ?_, hf⟩
       rw [packRegVvvvv_eq reg vvvvv hr hv]
       simpa [r32] using hb
     · obtain ⟨hll, hmm⟩ := hvx hsp
       have A' : RowAgree e.rule (finalOp e 0x7C) false := by rw [hsp] at A; exact A
-      obtain ⟨bytes, hb, hf⟩ := vexR_rvmi_formOk_vex c ctx e.rule (finalOp e 0x7C) reg vvvvv rm k0 k1 k2 f0 f1 f2 hpe hk hm64 hr hv hm hxop hll hmm
+      obtain ⟨bytes, hb, hf⟩ := vexR_rvmi_formOk_vex c ctx e.rule (finalOp e 0x7C) reg vvvvv rm k0 k1 k2 f0 f1 f2 hpe hk hm64 (by simpa using R.hmodes) hr hv hm hxop hll hmm
         p0 p1 p2 R f3 imm r3 hib hsp A' r0 r1 r2 (hal _ _ _)
       refine ⟨bytes, k0, k1, k2, hkinds, ?_, hf⟩
       rw [packRegVvvvv_eq reg vvvvv (by bv_decide) (by bv_decide)]
@@ -364,13 +364,13 @@ theorem front_cls_correct_rmi (e : Entry) (ch : List Entry) (hch : ch ∈ rmiChu
     have e0 : reg + ((0#32 : BitVec 32) <<< 7) = reg := by bv_decide
     rcases hids with ⟨hsp, hr, hm, hev⟩ | ⟨hsp, hr, hm⟩
     · rw [hsp] at A
-      obtain ⟨bytes, hb, hf⟩ := vexR_rmi_formOk_evex c ctx e.rule (finalOp e 0x71) reg rm k0 k2 f0 f2 hpe hk hm64 hr hm hxop hev p0 p2 R f3 imm r3 hib hsp A r0 r2 (hal _ _)
+      obtain ⟨bytes, hb, hf⟩ := vexR_rmi_formOk_evex c ctx e.rule (finalOp e 0x71) reg rm k0 k2 f0 f2 hpe hk hm64 (by simpa using R.hmodes) hr hm hxop hev p0 p2 R f3 imm r3 hib hsp A r0 r2 (hal _ _)
       refine ⟨bytes, k0, k2, hkinds, ?_, hf⟩
       rw [e0] at hb
       simpa [r32] using hb
     · obtain ⟨hll, hmm⟩ := hvx hsp
       have A' : RowAgree e.rule (finalOp e 0x71) false := by rw [hsp] at A; exact A
-      obtain ⟨bytes, hb, hf⟩ := vexR_rmi_formOk_vex c ctx e.rule (finalOp e 0x71) reg rm k0 k2 f0 f2 hpe hk hm64 hr hm hxop hll hmm p0 p2 R f3 imm r3 hib hsp A' r0 r2 (hal _ _)
+      obtain ⟨bytes, hb, hf⟩ := vexR_rmi_formOk_vex c ctx e.rule (finalOp e 0x71) reg rm k0 k2 f0 f2 hpe hk hm64 (by simpa using R.hmodes) hr hm hxop hll hmm p0 p2 R f3 imm r3 hib hsp A' r0 r2 (hal _ _)
       refine ⟨bytes, k0, k2, hkinds, ?_, hf⟩
       rw [e0] at hb
       simpa [r32] using hb
@@ -456,7 +456,7 @@ theorem front_cls_correct_lrm (e : Entry) (ch : List Entry) (hch : ch ∈ lrmChu
     obtain ⟨-, hR, hA, ra, rb, hS⟩ := hok
     obtain ⟨A, hmask⟩ := legAgreeOk_spec _ _ hA
     obtain ⟨p0, p1, m0, m1⟩ := shapeOk2_spec _ _ _ _ _ hS
-    obtain ⟨bytes, hb, hf⟩ := legR_2reg_formOk ctx e.rule (finalOpLeg e) r0 r1 k0 k1 f0 f1 hm64 hmask h0 h1 p0 p1 (legRuleOk_spec _ _ _ hR) A true
+    obtain ⟨bytes, hb, hf⟩ := legR_2reg_formOk ctx e.rule (finalOpLeg e) r0 r1 k0 k1 f0 f1 hm64 (by simpa using (legRuleOk_spec _ _ _ hR).hmodes) hmask h0 h1 p0 p1 (legRuleOk_spec _ _ _ hR) A true
       (by simp [ra, rb]) (fun ia ib => by rw [hops]; exact alignOps2 _ _ _ _ _ (m0 ia) (m1 ib))
     exact ⟨bytes, k0, k1, hkinds, hb, by simpa using hf⟩
   · simp at hok
@@ -474,7 +474,7 @@ theorem front_cls_correct_lmr (e : Entry) (ch : List Entry) (hch : ch ∈ lmrChu
     obtain ⟨-, hR, hA, ra, rb, hS⟩ := hok
     obtain ⟨A, hmask⟩ := legAgreeOk_spec _ _ hA
     obtain ⟨p0, p1, m0, m1⟩ := shapeOk2_spec _ _ _ _ _ hS
-    obtain ⟨bytes, hb, hf⟩ := legR_2reg_formOk ctx e.rule (finalOpLeg e) r1 r0 k0 k1 f0 f1 hm64 hmask h1 h0 p0 p1 (legRuleOk_spec _ _ _ hR) A false
+    obtain ⟨bytes, hb, hf⟩ := legR_2reg_formOk ctx e.rule (finalOpLeg e) r1 r0 k0 k1 f0 f1 hm64 (by simpa using (legRuleOk_spec _ _ _ hR).hmodes) hmask h1 h0 p0 p1 (legRuleOk_spec _ _ _ hR) A false
       (by simp [ra, rb]) (fun ia ib => by rw [hops]; exact alignOps2 _ _ _ _ _ (m0 ia) (m1 ib))
     exact ⟨bytes, k0, k1, hkinds, hb, by simpa using hf⟩
   · simp at hok
@@ -494,7 +494,7 @@ theorem front_cls_correct_lrmi (e : Entry) (ch : List Entry) (hch : ch ∈ lrmiC
     obtain ⟨A, hmask⟩ := legAgreeOk_spec _ _ hA
     obtain ⟨p0, p1, m0, m1⟩ := shapeOk2_spec _ _ _ _ _ hS
     have m3 : formOpMatches e.rule.oszEff f3 (.imm imm) = true := himm f3 (by rw [hops]; rfl)
-    obtain ⟨bytes, hb, hf⟩ := legR_2reg_imm_formOk ctx e.rule (finalOpLeg e) r0 r1 k0 k1 f0 f1 f3 imm hm64 hmask h0 h1 p0 p1 (legRuleOk_spec _ _ _ hR) A
+    obtain ⟨bytes, hb, hf⟩ := legR_2reg_imm_formOk ctx e.rule (finalOpLeg e) r0 r1 k0 k1 f0 f1 f3 imm hm64 (by simpa using (legRuleOk_spec _ _ _ hR).hmodes) hmask h0 h1 p0 p1 (legRuleOk_spec _ _ _ hR) A
       ra rb r3 hib hsg (fun ia ib => by rw [hops]; exact alignOps3i _ _ _ _ _ _ _ (m0 ia) (m1 ib) m3)
     exact ⟨bytes, k0, k1, hkinds, hb, hf⟩
   · simp at hok
